@@ -35,7 +35,8 @@ ALPHABETS = {
 class ValGen(object):
 
     def __init__(self, spec, rng, numeric_enums=False, max_depth=4,
-                 big=False, specials=True, absent_additions=True):
+                 big=False, specials=True, absent_additions=True,
+                 addition_bias=0.25):
         self.spec = spec
         self.rng = rng
         self.numeric_enums = numeric_enums
@@ -46,6 +47,9 @@ class ValGen(object):
         # mandatory members, so leaving them out is an invalid value there.
         self.absent_additions = absent_additions
         self.size_left = 6000
+        # Probability of choosing an extension-addition alternative of an
+        # extensible CHOICE / ENUMERATED.
+        self.addition_bias = addition_bias
 
     # -- lookup ------------------------------------------------------------
 
@@ -341,7 +345,7 @@ class ValGen(object):
 
         pool = root
 
-        if additions and rng.random() < 0.25:
+        if additions and rng.random() < self.addition_bias:
             pool = additions
 
         name, number = rng.choice(pool)
@@ -535,7 +539,7 @@ class ValGen(object):
 
         if depth >= self.max_depth:
             member = root[0]
-        elif additions and rng.random() < 0.25:
+        elif additions and rng.random() < self.addition_bias:
             member = rng.choice(additions)
         else:
             member = rng.choice(root)
